@@ -179,18 +179,52 @@ def fresh_diagrams(inputs, hashseed):
 
 
 IMPORTS = 'Require Import LT.Model.Values LT.Model.ValuesCheck LT.Model.Diagram.\n'
+TEXT_IMPORTS = IMPORTS + 'Require Import LT.Model.DiagramText.\n'
+
+
+def _fmt(t):
+    """How labtech spells a type hint (its own format_type where the module still has one)."""
+    try:
+        from labtech.diagram import format_type
+        return format_type(t)
+    except ImportError:
+        return t.__name__ if isinstance(t, type) else str(t)
+
+
+def emit_text(tasks, direction, text):
+    """A Model/DiagramText.v case: the tasks, what typing says about every reachable type, the text split at newlines."""
+    import typing
+    infos, seen = [], set()
+    for t in reachable(tasks):
+        ty = type(t)
+        if ty in seen:
+            continue
+        seen.add(ty)
+        ret = typing.get_type_hints(ty.run).get('return')
+        fields = g_list([f'({V.g_s(_fmt(f.type))}, {V.g_s(f.name)})' for f in dataclasses.fields(ty)])
+        infos.append('(%s, {| ti_name := %s; ti_fields := %s; ti_run := %s |})' % (
+            V.g_s(fullname(ty)), V.g_s(_fmt(ty)), fields, V.g_s('' if ret is None else ' ' + _fmt(ret))))
+    return '{| tc_tasks := %s; tc_dir := %s; tc_info := %s; tc_text := %s |}' % (
+        g_list([V.g_value_py(t) for t in tasks]), V.g_s(direction), g_list(infos), g_list([V.g_s(l) for l in text.split('\n')]))
+
 VOLUME = {'quick': 400, 'thorough': 8000}
 
 
 def run(prop, report, tier, seed, replay=None):
     rng = rng_for(seed, prop, 'diagram')
     inputs = [replay['input']['tasks']] if replay else [[(gen_chain(rng) if rng.random() < 0.2 else gen_task(rng)) for _ in range(rng.randint(0, 3))] for _ in range(VOLUME[tier])]
-    terms, kept = [], []
+    terms, kept, text_terms = [], [], []
     dist = Counter()
     distinct = set()
     for specs in inputs:
         tasks = [V.build(s) for s in specs]
         text = build_task_diagram(tasks)
+        direction = rng.choice(['BT', 'BT', 'TB', 'LR', 'RL'])
+        try:
+            text_terms.append(emit_text(tasks, direction, build_task_diagram(tasks, direction=direction)))
+        except BaseException as e:   # noqa
+            report.violation('C20:diagram-raised', f'build_task_diagram(direction={direction!r}) raised {e!r}', dict(tasks=specs))
+            text_terms.append(None)
         text2 = build_task_diagram([V.build(s) for s in specs])
         v = monitor(tasks, text, text2)
         if v is not None:
@@ -222,6 +256,17 @@ def run(prop, report, tier, seed, replay=None):
     if bad:
         report.broke(f'correspondence Model/Diagram.v vs TaskStructure.build: {len(bad)} of {len(terms)} cases differ',
                      first_case=dict(tasks=kept[bad[0]]))
+    # the text, line by line
+    idx = [i for i, t in enumerate(text_terms) if t is not None]
+    try:
+        tbad = coq_failing('corr_C20_text', TEXT_IMPORTS, [text_terms[i] for i in idx], 'check_tcase', shard=200)
+    except CoqError as e:
+        tbad = []
+        report.broke('correspondence DiagramText.check_tcase could not be evaluated', str(e))
+    if tbad:
+        report.broke(f'correspondence Model/DiagramText.v vs build_task_diagram (text, line by line): {len(tbad)} of {len(idx)} cases differ',
+                     first_case=dict(tasks=kept[idx[tbad[0]]]))
+    dist['text_cases'] = len(idx)
     report.coverage.update(
         evaluations=len(inputs), distinct_nontrivial=len(distinct), traces_validated_against_impl=len(terms),
         correspondence_mismatches=len(bad),
